@@ -252,26 +252,38 @@ Definition stream_io (E : env) (s : st) (events : Z) : st * list event :=
     let '(s2, e2) := stream_eof E s1 None in (s2, e1 ++ e2)
   else (s1, e1).
 
-(* uv__io_poll, for the one epoll_event of our descriptor *)
-Definition io_poll (E : env) (s : st) (raw : Z) : st * list event :=
+(* uv__io_poll, for the one epoll_event of our descriptor.  [wout]: POLLOUT is
+   requested at that moment (a uv_write is waiting for the socket; the write side
+   is C05's and abstract here), so the handle can be polled - and uv__stream_io
+   entered - while READING is clear.  uv__io_close clears every request. *)
+Definition io_poll (E : env) (s : st) (raw : Z) (wout : bool) : st * list event :=
   if raw =? 0 then (s, [])                       (* nothing reported *)
-  else if negb (pollin s) then (s, [])           (* loop->watchers[fd] == NULL: EPOLL_CTL_DEL *)
   else
-    let pevents := POLLIN in
-    let pe := Z.land raw (Z.lor pevents (Z.lor POLLERR POLLHUP)) in
-    let pe := if (pe =? POLLERR) || (pe =? POLLHUP)
-              then Z.lor pe (Z.land pevents (Z.lor POLLIN (Z.lor POLLOUT (Z.lor POLLRDHUP POLLPRI))))
-              else pe in
-    if pe =? 0 then (s, []) else stream_io E s pe.
+    let pevents := if closing s then 0
+                   else Z.lor (if pollin s then POLLIN else 0) (if wout then POLLOUT else 0) in
+    if pevents =? 0 then (s, [])                 (* loop->watchers[fd] == NULL: EPOLL_CTL_DEL *)
+    else
+      let pe := Z.land raw (Z.lor pevents (Z.lor POLLERR POLLHUP)) in
+      let pe := if (pe =? POLLERR) || (pe =? POLLHUP)
+                then Z.lor pe (Z.land pevents (Z.lor POLLIN (Z.lor POLLOUT (Z.lor POLLRDHUP POLLPRI))))
+                else pe in
+      if pe =? 0 then (s, []) else stream_io E s pe.
 
 (* one uv_run(UV_RUN_NOWAIT) iteration: poll phase, then closing handles *)
-Definition run_once (E : env) (s : st) (raw : Z) : st * list event :=
-  let '(s1, e1) := io_poll E s raw in
+Definition run_once (E : env) (s : st) (raw : Z) (wout : bool) : st * list event :=
+  let '(s1, e1) := io_poll E s raw wout in
   if closing s1 && negb (closed s1)
   then (set_closed s1, EPoll raw :: e1 ++ [ECloseCb])
   else (s1, EPoll raw :: e1).
 
-Inductive op := OStart (tok : nat) | OStop | OClose | ORun (raw : Z).
+(* uv__stream_io entered directly with [ev] (uv__run_pending after uv__io_feed passes
+   POLLOUT; the theorems allow any mask in any state).  Never on a closing handle:
+   uv__io_close takes the watcher off the pending queue. *)
+Definition io_event (E : env) (s : st) (ev : Z) : st * list event :=
+  if closing s then (s, [EPoll ev])
+  else let '(s1, e1) := stream_io E s ev in (s1, EPoll ev :: e1).
+
+Inductive op := OStart (tok : nat) | OStop | OClose | ORun (raw : Z) (wout : bool) | OIo (ev : Z).
 
 Definition flags_ev (s : st) : event := EFlags (readable s) (active s) (closing s).
 
@@ -280,7 +292,8 @@ Definition op_run (E : env) (s : st) (o : op) : st * list event :=
   | OStart tok => cop_run s (CStart tok)
   | OStop => cop_run s CStop
   | OClose => cop_run s CClose
-  | ORun raw => run_once E s raw
+  | ORun raw wout => run_once E s raw wout
+  | OIo ev => io_event E s ev
   end.
 
 Fixpoint exec (E : env) (s : st) (os : list op) : st * list event :=
